@@ -3,6 +3,7 @@ package main
 // Evaluation of contract expressions against a symbolic state.
 
 import (
+	"os"
 	"fmt"
 	"go/constant"
 	"go/types"
@@ -258,6 +259,38 @@ func (e *Env) ident(name string) TV {
 	if ex, ok := e.lets[name]; ok {
 		if _, shadow := e.vars[name]; !shadow {
 			return e.eval(ex)
+		}
+	}
+	if len(e.result) > 0 && strings.HasPrefix(name, "result") {
+		// the returned values win over a local variable of the same name
+		if name == "result" {
+			return e.result[0]
+		}
+		var i int
+		if _, err := fmt.Sscanf(name, "result%d", &i); err == nil && i < len(e.result) && fmt.Sprintf("result%d", i) == name {
+			return e.result[i]
+		}
+	}
+	if os.Getenv("GOVC_WARN_LOCALS") != "" && len(e.result) > 0 && e.fr != nil {
+		if _, ok := e.vars[name]; !ok {
+			if _, ok := e.fr.named[name]; ok {
+				isRes := false
+				if sig := e.fr.fn.Signature; sig != nil {
+					for i := 0; i < sig.Results().Len(); i++ {
+						if sig.Results().At(i).Name() == name {
+							isRes = true
+						}
+					}
+				}
+				for _, p := range e.fr.fn.Params {
+					if p.Name() == name {
+						isRes = true
+					}
+				}
+				if !isRes {
+					fmt.Fprintf(os.Stderr, "WARN-LOCAL %s: postcondition identifier %q is a local variable\n", funcKey(e.fr.fn), name)
+				}
+			}
 		}
 	}
 	if tv, ok := e.lookup(name); ok {
@@ -816,6 +849,32 @@ func (e *Env) call(c *ECall) TV {
 		a := e.toTerm(e.eval(c.Args[0]))
 		b := e.toTerm(e.eval(c.Args[1]))
 		return TV{UF(SB, "str.contains", a, b), boolT}
+	case "substr":
+		return TV{UF(SI, "str.sub", e.toTerm(e.eval(c.Args[0])), e.intTerm(c.Args[1]), e.intTerm(c.Args[2])), types.Typ[types.String]}
+	case "trimspace", "toupper", "tolower":
+		return TV{UF(SI, "str."+c.Fn, e.toTerm(e.eval(c.Args[0]))), types.Typ[types.String]}
+	case "replaceall":
+		return TV{UF(SI, "str.replaceall", e.toTerm(e.eval(c.Args[0])), e.toTerm(e.eval(c.Args[1])), e.toTerm(e.eval(c.Args[2]))), types.Typ[types.String]}
+	case "parsefloat":
+		return TV{UF(SI, "parsefloat.val", e.toTerm(e.eval(c.Args[0]))), types.Typ[types.Float64]}
+	case "parsefloatok":
+		return TV{Eq(UF(SI, "parsefloat.err", e.toTerm(e.eval(c.Args[0]))), TInt(0)), boolT}
+	case "parseint":
+		return TV{UF(SI, "parseint.val", e.toTerm(e.eval(c.Args[0])), e.intTerm(c.Args[1]), e.intTerm(c.Args[2])), types.Typ[types.Int64]}
+	case "parseintok":
+		return TV{Eq(UF(SI, "parseint.err", e.toTerm(e.eval(c.Args[0])), e.intTerm(c.Args[1]), e.intTerm(c.Args[2])), TInt(0)), boolT}
+	case "fmul":
+		return TV{UF(SI, "f64.mul", e.toTerm(e.eval(c.Args[0])), e.toTerm(e.eval(c.Args[1]))), types.Typ[types.Float64]}
+	case "ftoint":
+		return TV{UF(SI, "f64.toint", e.toTerm(e.eval(c.Args[0]))), types.Typ[types.Int]}
+	case "atoi":
+		return TV{UF(SI, "atoi.val", e.toTerm(e.eval(c.Args[0]))), types.Typ[types.Int]}
+	case "atoiok":
+		return TV{Eq(UF(SI, "atoi.err", e.toTerm(e.eval(c.Args[0]))), TInt(0)), boolT}
+	case "splitlen":
+		return TV{UF(SI, "str.split.len", e.toTerm(e.eval(c.Args[0])), e.toTerm(e.eval(c.Args[1]))), types.Typ[types.Int]}
+	case "splitat":
+		return TV{Sel(UF(ArrSort(SI, SI), "str.split.arr", e.toTerm(e.eval(c.Args[0])), e.toTerm(e.eval(c.Args[1]))), e.intTerm(c.Args[2])), types.Typ[types.String]}
 	case "itoa":
 		return TV{UF(SI, "str.itoa", e.intTerm(c.Args[0])), types.Typ[types.String]}
 	case "bytes":
@@ -827,6 +886,9 @@ func (e *Env) call(c *ECall) TV {
 	case "fadd":
 		return TV{UF(SI, "f64.add", e.toTerm(e.eval(c.Args[0])), e.toTerm(e.eval(c.Args[1]))), types.Typ[types.Float64]}
 	case "flit":
+		if n, ok := c.Args[0].(*EInt); ok {
+			return TV{e.x.floatLit(n.V.String()), types.Typ[types.Float64]}
+		}
 		return TV{e.x.floatLit(exprKey(c.Args[0])), types.Typ[types.Float64]}
 	case "timeunix":
 		// the value time.Unix(sec, nsec) of the time model
@@ -891,7 +953,8 @@ func (e *Env) call(c *ECall) TV {
 		v := e.toTerm(e.eval(c.Args[0]))
 		fn := e.x.eng.funcByKey(e.qualKey(exprKey(c.Args[1])) + "$bound")
 		if fn == nil {
-			sfail("no bound method %s", exprKey(c.Args[1]))
+			// the code creates no such method value any more
+			return TV{e.st.fresh("nobound", SI), nil}
 		}
 		fv := fn.FreeVars[0]
 		comp := st.comp(fmt.Sprintf("B!%s!%s", sanitize(funcKey(fn)), fv.Name()), ArrSort(SI, sortOf(fv.Type())))
@@ -900,7 +963,7 @@ func (e *Env) call(c *ECall) TV {
 		v := e.toTerm(e.eval(c.Args[0]))
 		fn := e.x.eng.funcByKey(e.qualKey(exprKey(c.Args[1])) + "$bound")
 		if fn == nil {
-			sfail("no bound method %s", exprKey(c.Args[1]))
+			return TV{TFalse, boolT} // no such method value exists in the code
 		}
 		return TV{Eq(cloFn(v), e.x.funcID(fn)), boolT}
 	}
@@ -985,7 +1048,7 @@ func (e *Env) callArgDirect(c *ECall) TV {
 	i := e.intTerm(c.Args[1])
 	sig := e.x.eng.callSigs[key]
 	if sig == nil {
-		sfail("no call signature known for %q", key)
+		return TV{e.st.fresh("nocall."+sanitize(key), SI), nil} // see callArg
 	}
 	j := -1
 	switch a := c.Args[2].(type) {
@@ -1020,7 +1083,9 @@ func (e *Env) callArg(c *ECall, abs bool) TV {
 	i := e.intTerm(c.Args[1])
 	sig := e.x.eng.callSigs[key]
 	if sig == nil {
-		sfail("no call signature known for %q", key)
+		// the code makes no such call any more: an arbitrary value, so that a clause about the
+		// call's arguments cannot be proved (instead of the function becoming undecided)
+		return TV{e.st.fresh("nocall."+sanitize(key), SI), nil}
 	}
 	j := -1
 	switch a := c.Args[2].(type) {
